@@ -39,9 +39,19 @@ func genSpell(r *core.Rng, id int) *spellCase {
 	}
 	// one definition per file; the last one lives OUTSIDE the project directory
 	var entries []string
+	// an OPERATION lives outside (its sourceLocation is exported), fragments may too
+	outside := -1
+	for i, df := range defs {
+		if df.Kind != "fragment" {
+			outside = i
+		}
+	}
+	if len(defs) < 2 {
+		outside = -1
+	}
 	for i, df := range defs {
 		name := fmt.Sprintf("ops/d%d.graphql", i)
-		if i == len(defs)-1 && len(defs) > 1 {
+		if i == outside {
 			name = fmt.Sprintf("../shared/s%d.graphql", i)
 			files["shared/"+filepath.Base(name)] = df.Text
 		} else {
@@ -49,8 +59,8 @@ func genSpell(r *core.Rng, id int) *spellCase {
 		}
 		entries = append(entries, name)
 	}
-	if len(defs) > 1 && r.Chance(0.5) {
-		entries[len(entries)-1] = "../shared/*.graphql"
+	if outside >= 0 && r.Chance(0.5) {
+		entries[outside] = "../shared/*.graphql"
 	}
 	var sb strings.Builder
 	sb.WriteString("schema: schema/*.graphql\noperations:\n")
